@@ -67,7 +67,8 @@ def set_strategy(tier):
     @st.composite
     def build(draw):
         caps = []
-        for _ in range(draw(st.integers(1, 5))):
+        tight = draw(st.integers(0, 3)) == 0
+        for _ in range(draw(st.integers(6, 12)) if tight else draw(st.integers(1, 5))):
             lines = draw(st.lists(line_strategy(), min_size=1, max_size=4))
             caps.append({"lines": lines, "dur": draw(st.integers(20, 200)),
                          "slack": draw(st.sampled_from([0, 1, 2, 3, 4, 5, 30, 300])),
@@ -75,7 +76,7 @@ def set_strategy(tier):
         if len(caps) >= 2 and draw(st.integers(0, 3)) == 0:
             caps[-1]["lines"] = list(caps[0]["lines"])      # a repeated caption text
         return {"caps": caps, "lead": draw(st.sampled_from([0, 0, 1, 30, 3000])),
-                "reuse": draw(st.integers(0, 3)) == 0}
+                "reuse": draw(st.integers(0, 3)) == 0, "tight": tight}
     return build()
 
 
@@ -89,23 +90,35 @@ def _model_caption(lines, start, end):
 
 
 def build_set(case):
-    """Place the captions on the timeline from a dry run of the writer (transmission words)."""
+    """Place the captions on the timeline from a dry run of the writer (transmission words).
+    Normal mode: a caption starts after the previous one has ended, its erase command has been
+    sent and its own code words have been transmitted, plus slack.  Tight mode: captions follow
+    each other back to back - each starts exactly one transmission time (plus 0-2 frames) after
+    the previous start and the previous caption stays up until then."""
     w = SCCWriter()
-    t = Fraction(0)
+    needs = []
+    for c in case["caps"]:
+        probe = model.cue_to_py(_model_caption(c["lines"], 0, 1))
+        needs.append((len(w._text_to_code(probe)) // 5 + 8) * FRAME)
+    tight = case.get("tight")
+    starts = []
+    t_free = Fraction(0)
+    for i, c in enumerate(case["caps"]):
+        if i == 0:
+            start = needs[0] + case["lead"] * FRAME + c["sub"]
+        elif tight:
+            start = starts[-1] + needs[i] + (c["slack"] % 3) * FRAME + c["sub"] % 1000
+        else:
+            start = t_free + needs[i] + c["slack"] * FRAME + c["sub"]
+        start = Fraction(int(start) + 1)
+        starts.append(start)
+        t_free = start + c["dur"] * FRAME + 2 * FRAME
     cues = []
     for i, c in enumerate(case["caps"]):
-        probe = model.cue_to_py(_model_caption(c["lines"], 0, 1))
-        nwords = len(w._text_to_code(probe)) // 5 + 8
-        need = nwords * FRAME
-        if i == 0:
-            start = need + case["lead"] * FRAME + c["sub"]
-        else:
-            start = t + need + c["slack"] * FRAME + c["sub"]
-        start = Fraction(int(start) + 1)
-        end = start + c["dur"] * FRAME
-        end = Fraction(int(end))
-        cues.append(_model_caption(c["lines"], int(start), int(end)))
-        t = end + 2 * FRAME     # the erase line (two words) has to fit as well
+        end = starts[i] + c["dur"] * FRAME
+        if tight and i + 1 < len(starts):
+            end = starts[i + 1]
+        cues.append(_model_caption(c["lines"], int(starts[i]), int(end)))
     return {"langs": [{"code": "en-US", "layout": None, "cues": cues}], "styles": {}, "layout": None}
 
 
